@@ -378,6 +378,65 @@ def enum_eclass_dirs(seed):
             "replacement by rename, removal, move to the overlay, an unrelated eclass added), each read through freshly built cache objects before and after", "cases": cases, "failures": fails}
 
 
+def enum_flat_entries(seed):
+    """entries as they lie in an on-disk flat cache (the mtime-based flat_hash.database and the md5 flavour): written by the cache itself, written with a
+    stale record, and -- damaged or foreign -- lacking the line that records the ebuild's mtime / checksum, the entry file carrying the very
+    timestamp of the ebuild.  An entry is usable only if reading it succeeds AND validate_entry accepts it; that may happen only when the entry
+    records the ebuild's current mtime / checksum"""
+    import os
+    import shutil
+    import tempfile
+    import types
+    from pkgcore.cache import flat_hash
+    from snakeoil.chksum import LazilyHashedPath
+    scratch = tempfile.mkdtemp(prefix="c48.", dir=os.environ.get("PYVC_SCRATCH", "/var/tmp"))
+    cases, fails = 0, []
+    keys = ("DESCRIPTION", "SLOT", "INHERIT")
+    try:
+        for md5 in (False, True):
+            for kind in ("written by the cache", "record of another mtime / checksum", "no record line at all", "empty record line"):
+                cases += 1
+                loc = os.path.join(scratch, f"c{int(md5)}-{cases}")
+                ebuild = os.path.join(scratch, f"e{int(md5)}-{cases}.ebuild")
+                open(ebuild, "w").write("first content\n")
+                os.utime(ebuild, (1700000000, 1700000000))
+                cur = LazilyHashedPath(ebuild)
+                mk = (lambda: flat_hash.md5_cache(loc, auxdbkeys=keys, readonly=False)) if md5 else (lambda: flat_hash.database(loc, auxdbkeys=keys, readonly=False))
+                db = mk()
+                chf_key = db._chf_key
+                db["cat/pkg-1"] = {"DESCRIPTION": "first", "SLOT": "0", "_chf_": cur}
+                path = next(os.path.join(dp, f) for dp, _dn, fn in os.walk(loc) for f in fn if f == "pkg-1")
+                lines = open(path).read().splitlines(True)
+                rec = [l for l in lines if l.startswith(chf_key + "=")]
+                if len(rec) != 1:
+                    fails.append({"model": {"flavour": "md5" if md5 else "mtime"}, "detail": f"the cache's own entry has no single {chf_key}= line: {lines}"})
+                    continue
+                rest = [l for l in lines if l not in rec]
+                if kind == "record of another mtime / checksum":
+                    lines = rest + [f"{chf_key}={'0' * 32 if md5 else '1600000000'}\n"]
+                elif kind == "no record line at all":
+                    lines = rest
+                elif kind == "empty record line":
+                    lines = rest + [f"{chf_key}=\n"]
+                open(path, "w").write("".join(lines))
+                os.utime(path, (1700000000, 1700000000))       # the entry file is as old as the ebuild, to the second
+                usable, how = False, ""
+                try:
+                    entry = mk()["cat/pkg-1"]
+                    usable = bool(db.validate_entry(entry, cur, types.SimpleNamespace(get_eclass_data=lambda *a, **k: None)))
+                    how = f"read as {dict(entry)} and {'accepted' if usable else 'refused'} by validate_entry"
+                except Exception as e:
+                    how = f"reading it raised {type(e).__name__}: {e}"
+                want = kind == "written by the cache"
+                if usable != want and len(fails) < 4:
+                    fails.append({"model": {"flavour": "md5" if md5 else "mtime", "entry": kind}, "detail": f"{'md5' if md5 else 'mtime'} flat cache, entry {kind} ({''.join(lines)!r}), entry file and ebuild with the same timestamp: "
+                                                                                                 f"{how}; it {'records' if want else 'does not record'} the ebuild's current {'checksum' if md5 else 'mtime'}"})
+    finally:
+        shutil.rmtree(scratch, ignore_errors=True)
+    return {"name": "C48.flat_entries.bounded_enumeration", "bound": "mtime and md5 flat caches x 4 on-disk entries (the cache's own, a stale record, no record line, an empty record line), entry file and ebuild with equal timestamps: read + validate_entry",
+            "cases": cases, "failures": fails}
+
+
 def t_get_metadata(ex):
     """package_factory._get_metadata over a stack of two caches with every combination of entry present / absent / unreadable, valid / stale,
     read-only or not: a cached entry is returned only when validate_entry accepted it against the ebuild's current hash and the factory's
@@ -457,6 +516,7 @@ def tasks():
         Task("C48.rebuild_cache_entry", t_rebuild, [(F_ECL, "base.rebuild_cache_entry")], enumerate=enum_rebuild),
         Task("C48.validate_entry", t_validate, [(F_CACHE, "base.validate_entry")], enumerate=enum_validate_histories),
         Task("C48.eclass_directories", None, [(F_ECL, "cache._load_eclasses"), (F_ECL, "StackedCaches._load_eclasses"), (F_ECL, "base.get_eclass_data")], enumerate=enum_eclass_dirs),
+        Task("C48.flat_entries", None, [("src/pkgcore/cache/flat_hash.py", "database._parse_data"), (F_CACHE, "base.validate_entry")], enumerate=enum_flat_entries),
         Task("C48.get_metadata", t_get_metadata, [("src/pkgcore/ebuild/ebuild_src.py", "package_factory._get_metadata")]),
         Task("C48.update_metadata", None, [("src/pkgcore/ebuild/ebuild_src.py", "package_factory._update_metadata")], enumerate=enum_update_metadata),
     ]
